@@ -378,6 +378,66 @@ def witness_text(w, default):
     return t
 
 
+# --- the chain half of `accepts` (Spec/ChainAccept.lean: readsAs + chainOk) against the real reader and the real constraint classes -------
+CHAIN_TEXTS = ["true", "false", "null", "0", "7", "007", "-3", "-0", "1.5", "1.50", "1e5", "-0.0", "1E3", "0.5e-3", "1e400", "-1e999", "12345678901234567890",
+               "abc", "A_b.c-d", "ACTIVE", "ACT", "AC", "DONE", "a", "x-", "true-x", "vs", "vs.a", "True", "NULL", "None", "nullx", "_", "a.b", "AB",
+               '"abc"', '"a b"', '"a\\"b"', '"t\\tx"', '"x\\\\y"', '"n\\nz"', '""', '"true"', '"7"', '"1.5"', '"ACTIVE"']
+
+
+def chain_accepts_corr(ctx, drv):
+    """For pools of value texts x constraints: the model's `readsAs` / `chainAccepts` vs parse + Constraint.evaluate on the real code.
+    `readsAs = none` stands for 'refused or outside the covered classes': compared only as 'the real code must not contradict a value'."""
+    import math
+    from octave_mcp.core.constraints import ConstConstraint, EnumConstraint, OptionalConstraint, RequiredConstraint, TypeConstraint
+    consts = [True, False, None, 0, 1, 7, -3, 1.5, 1.0, 100000.0, 0.0005, "abc", "true", "007", "ACTIVE", "a b", "", "7", "1.5"]
+    enums = [["ACTIVE", "DONE"], ["ACTIVE", "ACTIVATING"], ["AB", "AB"], ["true", "True"], ["7", "70"], ["1.5", "1.50"], ["abc"], ["1e5"], ["None", "Nope"],
+             ["a b"], ["100000.0"], ["-3"], ["False"], [""], ["0.0005"]]
+    kinds = ([({"k": "CONST", "ct": "bool" if isinstance(c, bool) else "none" if c is None else "int" if isinstance(c, int) else "float" if isinstance(c, float) else "str",
+                "s": str(c) if not isinstance(c, float) else repr(c)}, ConstConstraint(const_value=c), c) for c in consts]
+             + [({"k": "ENUM", "a": a}, EnumConstraint(allowed_values=list(a)), None) for a in enums]
+             + [({"k": "TYPE", "t": t}, TypeConstraint(expected_type=t), None) for t in ("STRING", "NUMBER", "BOOLEAN", "LIST", "BOGUS")]
+             + [({"k": "REQ"}, RequiredConstraint(), None), ({"k": "OPT"}, OptionalConstraint(), None)])
+    reqs, meta = [], []
+    for t in CHAIN_TEXTS:
+        st, val = read_back("F", t)
+        for (kj, cobj, cval) in kinds:
+            inf, rp, eq, ieq = False, "", False, False
+            # the float facts of THIS (text, constant) pair, from CPython's own floats (ChainEnv is a parameter of the spec)
+            try:
+                fv = float(t)
+                inf = math.isinf(fv)
+                rp = repr(fv)
+            except ValueError:
+                fv = None
+            num = val if (st == "ok" and isinstance(val, (bool, int, float))) else fv
+            if num is not None and cval is not None and isinstance(cval, (bool, int, float)):
+                eq = ieq = bool(num == cval)
+            reqs.append({"op": "chain_accepts", "kind": kj, "s": t, "inf": inf, "repr": rp, "eq": eq, "ieq": ieq})
+            meta.append((t, kj, cobj, st, val))
+    reps = drv.batch_par(reqs)
+    n = 0
+    for (t, kj, cobj, st, val), rep in zip(meta, reps):
+        ctx.count("chain_accepts_cases")
+        if "unsupported" in rep:
+            ctx.corr_disagreements.append({"case": {"text": t, "kind": kj}, "view": "chain_accepts op", "model": rep, "impl": None})
+            continue
+        if rep["reads"] is None:
+            ctx.count("chain_accepts_model_none")
+            continue
+        n += 1
+        if st != "ok":
+            ctx.corr_disagreements.append({"case": {"text": t, "kind": kj}, "view": "readsAs gives a value, the real reader does not", "model": rep["reads"], "impl": [st, str(val)[:80]]})
+            continue
+        tag = ("bool:" + str(val).lower()) if isinstance(val, bool) else "null" if val is None else ("int:%d" % val) if isinstance(val, int) else ("float:" + t) if isinstance(val, float) else ("str:" + val) if isinstance(val, str) else "other"
+        if tag != rep["reads"]:
+            ctx.corr_disagreements.append({"case": {"text": t, "kind": kj}, "view": "value read (Spec/ChainAccept.readsAs)", "model": rep["reads"], "impl": tag})
+            continue
+        real = bool(cobj.evaluate(val, "F").valid)
+        if real != rep["ok"]:
+            ctx.corr_disagreements.append({"case": {"text": t, "kind": kj}, "view": "Constraint.evaluate(value read).valid (Spec/ChainAccept.chainOk)", "model": rep["ok"], "impl": real})
+    ctx.count("chain_accepts_compared", n)
+
+
 def run(ctx: vlib.Ctx):
     ctx.rule = ("a case = (field name, chain text whose only specific member is CONST/ENUM/TYPE[BOOLEAN]/TYPE[NUMBER]/DATE/ISO8601, optionally with REQ/OPT, "
                 "route api|FIELDS document); for each case every derivation of the compiled field rule's value part (exhaustive for CONST/ENUM/BOOLEAN; all strings "
@@ -462,6 +522,9 @@ def run(ctx: vlib.Ctx):
             want = {"CONST": "CONST", "ENUM": "ENUM", "BOOLEAN": "TYPE", "NUMBER": "TYPE", "DATE": "DATE", "ISO8601": "ISO8601"}[r["kind"]]
             if rep.get("deciding") != want:
                 ctx.corr_disagreements.append({"case": r["case"], "view": "deciding member of the chain", "model": rep.get("deciding"), "impl": want})
+
+    if not ctx.replay:
+        chain_accepts_corr(ctx, drv)
 
     # ---- oracle ---------------------------------------------------------------------------------------
     reproduced = {}
